@@ -235,6 +235,14 @@ def run(ctx):
     somes = [i for i, j, s_ in gvq.stmts() if s_["k"] == "assign" and s_["place"] == 0 and s_["rv"]["k"] == "agg" and s_["rv"].get("variant") == "Some"]
     res.check(bool(somes) and all(any(re.match(r"^F:(self\.hide|is_hide_set\(self\))$", g) for g in guard_strs(gvq, i)) for i in somes), "R12.2", "hide|get_visible_quoted_name-dominated", gvq.where(),
               "a name is returned only on the !hide edge", "get_visible_quoted_name returns a name on a path that does not test `hide` (%s)" % [guard_strs(gvq, i) for i in somes])
+    # ---------------- R12.2c the copied help tree keeps the hidden flag of every subcommand
+    csh = fx.body("clap_builder::builder::command::Command::_copy_subtree_for_help")
+    hc = [c for c in csh.calls_to(r"Command::hide$") if expr(csh, c.args[1]) == "is_hide_set(self)"]
+    require(fx, res, "R12.2", "hide|help-subtree-copies-hidden-flag", csh, r"Command::hide$", len(hc), 1, "_copy_subtree_for_help no longer copies the hidden flag: hidden subcommands are listed by `help`")
+    for c in hc:
+        bg = [g for g in guard_strs(csh, c.bb) if re.match(r"^[TFV!]", g)]
+        res.check(not bg and not csh.must_pass([c.bb]), "R12.2", "hide|help-subtree-copies-hidden-flag", c.where(), "hide(self.is_hide_set()) on every path",
+                  "_copy_subtree_for_help copies the hidden flag only under %s: other hidden subcommands appear in the output of the `help` subcommand" % bg)
     # ---------------- R12.5 the ordered map that collects a section cannot merge two arguments: its key is made of attributes the validity gate keeps unique
     osk = fx.body("clap_builder::output::help_template::option_sort_key")
     used = sorted(set(c.callee_q.rsplit("::", 1)[1] for c in osk.calls() if c.callee_q and c.callee_q.startswith("clap_builder::builder::arg::Arg::") and not sp_macro(c.sp)))
